@@ -46,6 +46,8 @@ type c07Case struct {
 	// forced schedule: the first server Send that reaches the polling transport once the server's swap is imminent is held at the transport's entry
 	// for that many scheduler yields (no virtual time passes), and the swapping goroutine goes on only when that Send is there (0 = off)
 	ParkSendSpins int `json:"park_send_spins"`
+	// the server's swap is held back that long (a busy server: the UPGRADE packet is processed late), with messages sent meanwhile
+	ParkServerMs int `json:"park_server_ms"`
 }
 
 func (c c07Case) class() string {
@@ -164,6 +166,9 @@ func evalC07(c c07Case) (f *Failure, nontrivial bool) {
 		if side == "client" && c.ParkClientMs > 0 {
 			time.Sleep(time.Duration(c.ParkClientMs) * time.Millisecond)
 		}
+		if side == "server" && c.ParkServerMs > 0 {
+			time.Sleep(time.Duration(c.ParkServerMs) * time.Millisecond)
+		}
 	}}
 	body := func() {
 		start = time.Now()
@@ -240,7 +245,16 @@ func evalC07(c c07Case) (f *Failure, nontrivial bool) {
 				upgradedAt = time.Since(start)
 				mu.Unlock()
 				if c.BurstDone {
-					for i := 0; i < 4; i++ {
+					// the callback itself uses the socket (the name of the transport, a Send), as an application does that greets its peer once
+					// the connection has settled; then three more from goroutines
+					mu.Lock()
+					cl := cli
+					mu.Unlock()
+					if cl != nil {
+						_ = cl.TransportName()
+					}
+					send("c2s", true, "done")
+					for i := 1; i < 4; i++ {
 						go send("c2s", i%2 == 0, "done")
 					}
 				}
@@ -394,8 +408,15 @@ func genC07Case(t *rapid.T) c07Case {
 		// A disturbed WebSocket makes the library wait for the WebSocket library's 5 s close timeouts with the transport lock held;
 		// concurrent Sends then wait for that lock, which freezes virtual time (DESIGN.md §2.2). Disturbed upgrades are therefore
 		// exercised without traffic inside the window; the traffic follows at 15 s.
-		c.BurstSwap, c.BurstDone, c.ParkSwap, c.ParkClientMs, c.ParkSendSpins = "none", false, false, 0, 0
+		c.BurstSwap, c.BurstDone, c.ParkSwap, c.ParkClientMs, c.ParkSendSpins, c.ParkServerMs = "none", false, false, 0, 0, 0
 		return c
+	}
+	if c.ParkClientMs == 0 && rapid.IntRange(0, 5).Draw(t, "parkServer") == 0 {
+		// a busy server: the swap 2.5 s late (its own UpgradeTimeout is 5 s), a few messages each way in the meantime
+		c.ParkServerMs, c.BurstSwap, c.ParkSwap, c.ParkSendSpins = 2500, "none", false, 0
+		for i, n := 0, rapid.IntRange(1, 4).Draw(t, "lateMsgs"); i < n; i++ {
+			c.Msgs = append(c.Msgs, c07Msg{Dir: rapid.SampledFrom([]string{"s2c", "s2c", "c2s"}).Draw(t, "lateDir"), AtUs: 1000 * rapid.IntRange(300, 2300).Draw(t, "lateAt"), Binary: rapid.Bool().Draw(t, "lateBin")})
+		}
 	}
 	horizon := 4*c.WSLatencyUs + 3000
 	for i, n := 0, rapid.IntRange(0, 30).Draw(t, "msgs"); i < n; i++ {
